@@ -300,7 +300,10 @@ def write_evidence(prop, tier, seed, obligations, discharged, violations, known,
     ev = dict(
         property_id=prop, tier=tier if tier in ('quick', 'thorough') else 'quick', seed=seed, level='proof',
         coverage=dict(
-            obligations=len(obligations), discharged=len(discharged),
+            # obligations that fail only because of a recorded known finding are reported separately
+            # (coverage.known_findings) and are not part of the proof-level count
+            obligations=len(obligations) - len(known), discharged=len(discharged),
+            obligations_including_known_findings=len(obligations),
             checker_cmd='; '.join(cmds) if cmds else 'verus <generated unit>.rs --output-json --time --error-format=json',
             trusted_base=sorted(set(trusted)),
             backend='verus 0.2026.09.13 / z3 (bundled)',
